@@ -223,7 +223,7 @@ static void cmd_gssv(kv_t *K)
 		long double ml = 0, rr = recon_ratio(n, Af, S.perm_r, S.perm_c, Ld, Ud, BOUND_U, &ml);
 		lc *W = bound_matrix(n, S.perm_r, S.perm_c, Ld, Ud), *Xd = lc_zeros((long) n * (nrhs ? nrhs : 1)); int c;
 		for (c = 0; c < nrhs; ++c) for (i = 0; i < n; ++i) Xd[i + (long) c * n] = to_lc(b[i + (long) c * ldb]);
-		recon = permille(rr); maxl = permille(ml);
+		recon = permille(rr); maxl = permille(ml / (IS_COMPLEX ? 1.41421356237309504880L * (1.0L + 1e-12L) : 1.0L));
 		/* the factors are those of A (NC) or of A' (NR): the bound matrix follows */
 		resid = permille(resid_ratio(n, nrhs, Af, S.stype == 0 ? 0 : 1, W, Xd, B0, 3 * n, BOUND_U));
 		free(W); free(Xd);
